@@ -7,7 +7,7 @@
    AstVm instrumented with three run-time guards (Model/Blocks.v); the theorems say exactly
    when the two interpreters agree, and that outside the guards they do not. *)
 From TV Require Import Base.I32 Model.Blocks Model.BlocksInst Gen.DesugarRules
-  Proofs.BlocksStatic Proofs.BlocksSim Proofs.BlocksInst.
+  Proofs.BlocksStatic Proofs.BlocksSim Proofs.BlocksMono Proofs.BlocksInst.
 Open Scope Z_scope.
 
 (* the three facts about the expression language that block desugaring relies on *)
@@ -79,6 +79,23 @@ Proof. exact cex_neg_counter. Qed.
 
 Theorem C06_full_refuted : ~ C06_full.
 Proof. exact full_refuted. Qed.
+
+(* (6') the time guard is implied by a static condition: if no time label goes backwards
+        ([mono_block]) and the run starts at time <= 0, the guarded run never stops at the time guard
+        -- whatever the fuel; so for such programs only the two `times` guards remain *)
+Theorem C06_monotone_no_time_reset : forall (L : lang),
+  (forall e r, eval_int L e r <> Err E_TIMERESET) ->
+  (forall x rt r, exec L x rt r <> Err E_TIMERESET) ->
+  (forall v r, rd L v r <> Err E_TIMERESET) ->
+  forall fl (p : block L) st fuel,
+    wf_prog L p = true -> mono_block L p 0 = true -> s_time st <= 0 ->
+    run_struct L fuel (Strict fl) p st <> Err E_TIMERESET.
+Proof. exact (fun L H1 H2 H3 fl => monotone_no_time_reset L fl H1 H2 H3). Qed.
+
+Theorem C06_monotone_no_time_reset_IL : forall fl (p : block IL) st fuel,
+  wf_prog IL p = true -> mono_block IL p 0 = true -> s_time st <= 0 ->
+  run_struct IL fuel (Strict fl) p st <> Err E_TIMERESET.
+Proof. exact monotone_no_time_reset_IL. Qed.
 
 (* (7) tie 1: the `times` zero-test rule ("unless the count is a non-zero constant"), the flavour
        used when the format has no counting jump, and the order of preference between the two
